@@ -158,10 +158,53 @@ func c16Deadlocked(snap vk.LeakSnapshot, markers []string) (stacks []string, dea
 	return stacks, true
 }
 
+// c16WaitingOnOwnTimer: goroutines created since snap with a StreamProcessor write method on
+// their stack that are parked in sleep, or in a select inside a token-bucket / limiter
+// wait, the same ones in three dumps 100 ms apart. Consulted only after every Close has
+// returned: such a writer is woken by nothing but a timer the component started itself.
+func c16WaitingOnOwnTimer(snap vk.LeakSnapshot) []string {
+	var prev, stacks []string
+	for round := 0; round < 3; round++ {
+		if round > 0 {
+			time.Sleep(100 * time.Millisecond)
+		}
+		var cur []string
+		stacks = stacks[:0]
+		for _, g := range vk.Goroutines() {
+			if _, old := snap[g.ID]; old {
+				continue
+			}
+			if !strings.Contains(g.Stack, "stream.(*StreamProcessor).Write") {
+				continue
+			}
+			st := strings.SplitN(g.State, ",", 2)[0]
+			onTimer := st == "sleep" || (st == "select" && (strings.Contains(g.Top, "WaitForTokens") || strings.Contains(g.Top, "rate.(*Limiter)")))
+			if !onTimer {
+				continue
+			}
+			cur = append(cur, g.ID)
+			stk := g.Stack
+			if len(stk) > 1200 {
+				stk = stk[:1200]
+			}
+			stacks = append(stacks, stk)
+		}
+		sort.Strings(cur)
+		if len(cur) == 0 || (round > 0 && strings.Join(cur, ",") != strings.Join(prev, ",")) {
+			return nil
+		}
+		prev = cur
+	}
+	return append([]string(nil), stacks...)
+}
+
 // c16WaitOrHang waits for done. Normal trials finish within microseconds; after 1 s the
 // logical hang classifier is consulted every 2 s; the 20 s cap is an inconclusive watchdog.
-func c16WaitOrHang(done <-chan struct{}, snap vk.LeakSnapshot, markers []string) (finished bool, stacks []string) {
+func c16WaitOrHang(done <-chan struct{}, snap vk.LeakSnapshot, markers []string, afterClose bool) (finished bool, stacks []string) {
 	wait := time.Second
+	if afterClose {
+		wait = 100 * time.Millisecond // after Close the operations end within microseconds
+	}
 	deadline := time.Now().Add(20 * time.Second)
 	for {
 		select {
@@ -171,6 +214,11 @@ func c16WaitOrHang(done <-chan struct{}, snap vk.LeakSnapshot, markers []string)
 		}
 		if st, dead := c16Deadlocked(snap, markers); dead {
 			return false, st
+		}
+		if afterClose {
+			if st := c16WaitingOnOwnTimer(snap); st != nil {
+				return false, append([]string{"TIMER"}, st...)
+			}
 		}
 		if time.Now().After(deadline) {
 			return false, nil
@@ -310,9 +358,10 @@ func TestVerifC16Stream(t *testing.T) {
 	run.Floor("overlap_runs", 100)
 	run.Floor("op_in_progress_when_closed", 100)
 	run.Floor("close_between_chunks_runs", 100)
+	run.Floor("rate_limited_write_ended_by_close", 100)
 	scope := []string{"tunnox-core/internal/stream", "tunnox-core/internal/utils"}
 	readOps := []string{"ReadPacket", "ReadExact", "ReadAvailable", "ReadExactZeroCopy"}
-	writeOps := []string{"WritePacket", "WritePacketCompressed", "WriteExact", "WritePacketRateLimited"}
+	writeOps := []string{"WritePacket", "WritePacketCompressed", "WriteExact", "WritePacketRateLimited", "WritePacketRateLimitedSlow"}
 
 	for done := 0; done < n && run.Violations() < 20 && run.Counter("leak_violations") < 3 && run.Counter("close_deadlocks") < 3; done += batch {
 		snap := vk.SnapshotGoroutines()
@@ -352,6 +401,15 @@ func TestVerifC16Stream(t *testing.T) {
 			}
 			trigger := r.Intn(len(cuts))
 			wtrigger := r.Intn(3)
+			if wop == "WritePacketRateLimitedSlow" {
+				// 200 B/s: the body write waits for tokens (seconds) before it reaches the
+				// endpoint, so the closers are released at the header writes (or by the reader)
+				// and Close arrives while the writer is waiting
+				wtrigger = r.Intn(2)
+				if size < 5000 {
+					size = 5000
+				}
+			}
 			desc := map[string]any{"trial": trial, "mode": mode, "K": k, "read_op": rop, "write_op": wop, "payload": size,
 				"chunks": cuts, "release_closers_at_read_chunk": trigger, "release_closers_at_write": wtrigger,
 				"close_completes_between_chunks": waitClose, "parent_cancel": parentCancel, "spins": spins}
@@ -392,6 +450,7 @@ func TestVerifC16Stream(t *testing.T) {
 				rs.race, ws.race = race, race
 			}
 			// operations in progress
+			var slowInterrupted atomic.Bool
 			rres, wres := &c16OpResult{name: rop}, &c16OpResult{name: wop}
 			var ops sync.WaitGroup
 			ops.Add(2)
@@ -430,6 +489,11 @@ func TestVerifC16Stream(t *testing.T) {
 							_, err = sp.WritePacket(pk, false, 0)
 						case "WritePacketCompressed":
 							_, err = sp.WritePacket(pk, true, 0)
+						case "WritePacketRateLimitedSlow":
+							_, err = sp.WritePacket(pk, false, 200)
+							if err != nil {
+								slowInterrupted.Store(true) // the limited write was cut short by Close
+							}
 						case "WritePacketRateLimited":
 							_, err = sp.WritePacket(pk, false, 1<<30)
 						default:
@@ -479,7 +543,7 @@ func TestVerifC16Stream(t *testing.T) {
 				}()
 			}
 			markers := []string{"tunnox-core/internal/stream.(*StreamProcessor)"}
-			ok, hung := c16WaitOrHang(race.done, snap, markers)
+			ok, hung := c16WaitOrHang(race.done, snap, markers, false)
 			ok = ok && race.timeout.Load() == 0
 			if rs != nil && (rs.fired.Load() || ws.fired.Load()) {
 				inProgress = true // the closers were released from inside the operation's own Read/Write
@@ -498,7 +562,16 @@ func TestVerifC16Stream(t *testing.T) {
 			if hung == nil && ok {
 				opsDone := make(chan struct{})
 				go func() { ops.Wait(); close(opsDone) }()
-				ok, hung = c16WaitOrHang(opsDone, snap, markers)
+				ok, hung = c16WaitOrHang(opsDone, snap, markers, true)
+			}
+			if hung != nil && hung[0] == "TIMER" {
+				// every Close has returned and the endpoints are closed, yet a writer of this
+				// processor still sits on a timer of its own inside the write path
+				run.Violation("C16:stream|writer-waiting-on-rate-limit-timer-after-close|op="+wop, map[string]any{"case": desc, "stacks": hung[1:]})
+				run.Count("close_deadlocks", 1)
+				cancel()
+				snap = vk.SnapshotGoroutines()
+				continue
 			}
 			if hung != nil {
 				// Close (or an operation racing it) can never return. The goroutines of this
@@ -513,6 +586,9 @@ func TestVerifC16Stream(t *testing.T) {
 			if !ok {
 				run.Count("watchdog", 1)
 				continue
+			}
+			if slowInterrupted.Load() {
+				run.Count("rate_limited_write_ended_by_close", 1)
 			}
 			maxIn := int(race.maxIn.Load())
 			run.Max("max_concurrent_closers", int64(maxIn))
